@@ -47,6 +47,8 @@ def _run_one(args):
             cmd = ["git", "apply", "--include=cuqi/*"] + (["-R"] if spec["reverse"] else []) + [spec["path"]]
             r = subprocess.run(cmd, cwd=tmp, capture_output=True, text=True)
             if r.returncode != 0:
+                r = apply_rebased(spec["path"], spec["reverse"], tmp) or r
+            if r.returncode != 0:
                 return {"id": spec["id"], "applied": False, "why": r.stderr.strip()[:200]}
         else:
             p = os.path.join(tmp, spec["file"])
@@ -68,12 +70,39 @@ def _run_one(args):
                 bad = [o for o in chk.obligations if not o.ok and chk._known_entry(o) is None]
                 out.update({"killed": bool(bad), "by": sorted({o.rule for o in bad}), "instances": [o.instance for o in bad][:3], "outcome": "violation" if bad else "silent"})
             except AnchorError as e:
-                out.update({"killed": False, "outcome": "analysis-error", "why": str(e)[:200]})
+                bad = [o for o in chk.obligations if not o.ok and chk._known_entry(o) is None]
+                if bad:     # violations established before the unrecognised construct are firm (same as report.finish(partial_error=...))
+                    out.update({"killed": True, "by": sorted({o.rule for o in bad}), "instances": [o.instance for o in bad][:3], "outcome": "violation+analysis-error"})
+                else:
+                    out.update({"killed": False, "outcome": "analysis-error", "why": str(e)[:200]})
             except Exception as e:
                 out.update({"killed": False, "outcome": "internal-error", "why": f"{type(e).__name__}: {e}"[:200]})
         return out
     finally:
         shutil.rmtree(tmp, ignore_errors=True)
+
+
+def apply_rebased(path: str, reverse: bool, cwd: str):
+    """A change made against an earlier commit may carry, as context or removed lines, text that a later fix: commit rewrote.
+    mutants/rebase_map.json lists those line rewrites; the patch is retried with them applied to its context/removed lines."""
+    mp = VERIF / "mutants" / "rebase_map.json"
+    if not mp.exists():
+        return None
+    text = open(path).read()
+    changed = False
+    for m in json.loads(mp.read_text()):
+        for pre in (" ", "-"):
+            if pre + m["old"] in text:
+                text = text.replace(pre + m["old"], pre + m["new"])
+                changed = True
+    if not changed:
+        return None
+    tmpf = os.path.join(cwd, "_rebased.diff")
+    open(tmpf, "w").write(text)
+    try:
+        return subprocess.run(["git", "apply", "--include=cuqi/*"] + (["-R"] if reverse else []) + [tmpf], cwd=cwd, capture_output=True, text=True)
+    finally:
+        os.unlink(tmpf)
 
 
 def run_mutants(chk, prop: str, root: str):
